@@ -683,8 +683,8 @@ def policy(repo, tier):
         except (KeyError, ValueError, SyntaxError, TypeError):
             return None
     hr, er, hv = lit(h, "REMOVE_TAGS"), lit(e, "REMOVE_TAGS"), lit(h, "_VOID_TAGS")
-    G("C17/html_extractor.py::REMOVE_TAGS/module-invariant#equals-the-statement's-removable-set", hr == set(SPEC_REMOVE), f"{sorted(hr or [])}")
-    G("C17/epub_extractor.py::REMOVE_TAGS/module-invariant#equals-the-statement's-removable-set", er == set(SPEC_REMOVE), f"{sorted(er or [])}")
+    G("C17/html_extractor.py::REMOVE_TAGS/module-invariant#equals-the-removable-set-of-the-statement", hr == set(SPEC_REMOVE), f"{sorted(hr or [])}")
+    G("C17/epub_extractor.py::REMOVE_TAGS/module-invariant#equals-the-removable-set-of-the-statement", er == set(SPEC_REMOVE), f"{sorted(er or [])}")
     G("C17/html_extractor.py::_VOID_TAGS/module-invariant#void-and-removable-agree-with-HTML", hv is not None and hv & SPEC_REMOVE == SPEC_VOID & SPEC_REMOVE,
       f"{sorted((hv or set()) & SPEC_REMOVE)} vs {sorted(SPEC_VOID & SPEC_REMOVE)}")
     G("C17/html_extractor.py::_VOID_TAGS/module-invariant#only-HTML-void-elements", hv is not None and hv <= SPEC_VOID and {"img", "br", "input", "param", "source"} <= hv,
